@@ -88,15 +88,16 @@ type contractDB struct {
 	Markers   []string // assume/axiom/trusted style markers found
 	Ghosts    map[string]string // ghost state variable -> type
 	Invariants map[string][]*clause // layer -> global invariants of the property's sweep (assumed at entry of every function in scope, asserted at its exits and before every call into the scope)
+	GlobalFrame map[string]bool // properties that include the module-wide frame obligations for package-level variables
 	RevealPost map[string]bool // layers in which the spec terms of callee postconditions are unfolded one level
 	Scopes    map[string][]string // property -> root functions: every module function reachable from them is in the property's sweep
 	Files     []string
 }
 
-var clauseKw = regexp.MustCompile(`^(defines|heapwf|reveal|scope|invariant|ghost|spec|macro|lemma|contract|external|requires|ensures|emits|callsite|decreases|loop|safety|props|inline|pure|modifies|noreturn|fuel|unreachable)\b`)
+var clauseKw = regexp.MustCompile(`^(globalframe|defines|heapwf|reveal|scope|invariant|ghost|spec|macro|lemma|contract|external|requires|ensures|emits|callsite|decreases|loop|safety|props|inline|pure|modifies|noreturn|fuel|unreachable)\b`)
 
 func newContractDB() *contractDB {
-	return &contractDB{Specs: map[string]*specDef{}, Contracts: map[string]*contract{}, Ghosts: map[string]string{}, Scopes: map[string][]string{}, Invariants: map[string][]*clause{}, RevealPost: map[string]bool{}}
+	return &contractDB{Specs: map[string]*specDef{}, Contracts: map[string]*contract{}, Ghosts: map[string]string{}, Scopes: map[string][]string{}, Invariants: map[string][]*clause{}, RevealPost: map[string]bool{}, GlobalFrame: map[string]bool{}}
 }
 
 // loadContractFile parses one file. pkgPath is the Go package the file belongs to ("" for external files,
@@ -170,6 +171,12 @@ func (db *contractDB) loadContractFile(path, pkgPath string) error {
 				return fail("%v", err)
 			}
 			db.Invariants[layer] = append(db.Invariants[layer], &clause{Kind: "invariant", Layer: layer, Label: layer + ".invariant", Src: rest, Expr: e, File: path, Line: rc.line, Target: pkgPath})
+			cur = nil
+		case "globalframe":
+			// globalframe PROP: the property's check includes one frame obligation per package-level variable
+			for _, l := range strings.Fields(rest) {
+				db.GlobalFrame[l] = true
+			}
 			cur = nil
 		case "reveal":
 			// reveal LAYER: in this layer the spec terms of callee postconditions are unfolded one level
